@@ -27,7 +27,9 @@ fn main() {
     };
     let a = parse_args(&argv[1..]);
     let code = match prop.as_str() {
+        "C03" => run_scenario(&succinctly_sim::c03::C03, "exploration", 1_500_000, 40_000_000, &a),
         "C12" => run_scenario(&succinctly_sim::c12::C12, "exploration", 1_500_000, 40_000_000, &a),
+        "C17" => run_scenario(&succinctly_sim::c17::C17, "exploration", 1_000_000, 30_000_000, &a),
         other => {
             eprintln!("harness error: unknown property {other}");
             2
